@@ -25,19 +25,35 @@ func verifC07ReadPipe() {
 	if vBool() {
 		tr.endErr = errVTransport
 	}
+	tr.errWithData = vBool() // io.Reader allows (n > 0, err): the last bytes may come with the error
 	c := vAcceptedConn(tr, append([]byte{}, hello...))
 	var out []byte
 	var err error
 	bufSize := []int{1, 3, 64}[vInt(0, 2)] // caller buffer size: fixed per run
+	zeroReads := vBool()                  // the caller also issues zero-length reads
 	for i := 0; i < 64 && err == nil; i++ {
 		buf := make([]byte, bufSize)
 		var n int
+		if zeroReads && i%2 == 1 {
+			n0, err0 := c.Read(buf[:0])
+			vAssert(n0 == 0, "a zero-length Read returns no bytes")
+			if err0 != nil {
+				err = err0
+				break
+			}
+		}
 		n, err = c.Read(buf)
 		vAssert(n >= 0 && n <= len(buf), "Read count within the buffer")
 		vAssert(n > 0 || err != nil, "Read makes progress or reports an error")
 		out = append(out, buf[:n]...)
 	}
 	vAssert(err != nil, "the end of the stream is reported")
+	// the error is sticky: later reads return nothing more
+	for j := 0; j < 2; j++ {
+		buf := make([]byte, 8)
+		n2, err2 := c.Read(buf)
+		vAssert(n2 == 0 && err2 != nil, "after the end of the stream was reported, Read returns no further bytes")
+	}
 	// Reference: records are relayed until the stream ends; a header announcing more
 	// than the largest legal record aborts the connection right after that header,
 	// unless an application_data record has already switched inspection off.
